@@ -6,8 +6,8 @@ import (
 	"github.com/JunNishimura/Goit/internal/zzvp"
 )
 
-const vpFirst = "a-z0-9 (+_"
-const vpRest = "a-z0-9 (+_.-"
+const vpFirst = "a-z0-9 (+_%"
+const vpRest = "a-z0-9 (+_%.-"
 
 func vpComp(name string, maxc int) string {
 	n := 1 + zzvp.Choose(maxc)
